@@ -264,5 +264,12 @@ Definition run_frequent (reset_on_build empty_ok : bool) (db : list row) (q : qu
   | Ok cs => Ok (sort_desc (tally (selected no_coin db cs)))      (* full ranking; the harness applies the limit *)
   end.
 
+(* the state the property names: how many conjuncts the object holds after k builds *)
+Definition run_ncond (reset_on_build empty_ok : bool) (q : query) (k : nat) : result Z :=
+  match build_times reset_on_build empty_ok q k [] with
+  | Err e => Err e
+  | Ok cs => Ok (Z.of_nat (List.length cs))
+  end.
+
 (* direction-independent origin/destination key, as the importer stores it *)
 Definition od_key (o d : string) : string := if String.leb o d then (o ++ d)%string else (d ++ o)%string.
